@@ -10,7 +10,11 @@ Proved here, for the concrete CRC-32 chunk codec of the model:
                          `DecodeChunk` report `badCrc` (the two length bytes are excluded: a flip
                          there changes the checksummed range; detection is then 1 − 2⁻³², not a theorem);
 * `C12_beyond_harmless` — bytes after a chunk do not influence its decoding;
-* `C12_truncation`    — any truncation reads as a clean prefix (shared with C03).
+* `C12_truncation`    — for the reader of the ACTIVE file (`tolerateTornTail`), any truncation
+                         reads as a clean prefix (shared with C03);
+* `C12_torn_tail_only_active` — every other reader (older files, merge, hint file) is strict: a
+                         file that ends inside a chunk is reported as corruption, not as a
+                         shorter log.
 NOT provable and not claimed: detection of arbitrary multi-byte garbage and of flips in the length
 field (probabilistic); the "never panics" half of the property is a statement about Go slice bounds,
 which the model cannot violate by construction — it is checked by the exhaustive corruption runs
@@ -52,18 +56,74 @@ theorem C12_beyond_harmless (t : CT) (p rest rest' : ByteArray) (hp : p.size ≤
     dec (enc t p ++ rest) = dec (enc t p ++ rest') :=
   dec_ignores_rest_beyond t p rest rest' hp ht
 
-/-- truncation at any length is read as a clean prefix of the written records, never an error -/
+/-- truncation at any length is read as a clean prefix of the written records, never an error —
+    by the reader that tolerates a torn tail (`tol = true`: the reader `loadIndexFromDataFiles`
+    creates for the active file) -/
 theorem C12_truncation (fid : Nat) (ds : List ByteArray) (hpos : ∀ d ∈ ds, 0 < d.size) (n : Nat)
     (hn : n ≤ (appendAll crcCodec ByteArray.empty ds).size) :
     ∃ j, j ≤ ds.length ∧
-      scan crcCodec fid ((appendAll crcCodec ByteArray.empty ds).extract 0 n)
+      scan crcCodec true fid ((appendAll crcCodec ByteArray.empty ds).extract 0 n)
         = { recs := (ds.take j).zip (posAll crcCodec fid ByteArray.empty (ds.take j)),
             validEnd := (appendAll crcCodec ByteArray.empty (ds.take j)).size, ok := true } := by
   obtain ⟨j, hj, _, _, h⟩ := scan_truncate crcCodec fid ds hpos n hn
   exact ⟨j, hj, h⟩
 
+/-- A torn tail is accepted only by the reader of the active file; in every other file an
+    incomplete chunk is reported as corruption.
+
+    Cut a file built by appends at a length `n` inside the chunk bytes of record `j`: behind the
+    padding in front of the record (`hlo`), before its end (`hhi`), not at a block boundary (`hnb`;
+    a cut at a block boundary between two chunks of one record leaves no incomplete chunk — the
+    next block simply does not exist — and reads as end of file for both readers), and such that
+    the bytes present of the incomplete chunk are not all zero (`hnz`; the chunk starts at the
+    record's first chunk or at the start of the file's last block, whichever is later; an all-zero
+    remainder is indistinguishable from never-written space and is end of file for every reader).
+    Then the strict reader (`tol = false`) returns the `j` records in front of the cut, with the
+    positions the writer reported, and ends with an ERROR — it does not silently drop the tail. -/
+theorem C12_torn_tail_only_active (fid : Nat) (ds : List ByteArray) (hpos : ∀ d ∈ ds, 0 < d.size)
+    (j n : Nat) (hj : j < ds.length)
+    (hlo : (appendAll crcCodec ByteArray.empty (ds.take j)).size
+      + padOf ((appendAll crcCodec ByteArray.empty (ds.take j)).size % BS) < n)
+    (hhi : n < (appendAll crcCodec ByteArray.empty (ds.take (j+1))).size)
+    (hnb : n % BS ≠ 0)
+    (hnz : allZeroFrom ((appendAll crcCodec ByteArray.empty ds).extract 0 n)
+      (max ((appendAll crcCodec ByteArray.empty (ds.take j)).size
+          + padOf ((appendAll crcCodec ByteArray.empty (ds.take j)).size % BS)) (n / BS * BS)) = false) :
+    scan crcCodec false fid ((appendAll crcCodec ByteArray.empty ds).extract 0 n)
+      = { recs := (ds.take j).zip (posAll crcCodec fid ByteArray.empty (ds.take j)),
+          validEnd := (appendAll crcCodec ByteArray.empty (ds.take j)).size, ok := false } :=
+  scan_truncate_strict crcCodec fid ds hpos j n hj hlo hhi hnb hnz
+
 /-- non-vacuity: a concrete flip that the theorem covers -/
 example : dec (flipBit (enc 0 ⟨#[1, 2, 3]⟩) 8 7 ++ ⟨#[9]⟩) = .badCrc :=
   C12_chunk_flip 0 _ _ 8 7 (by decide) (by decide) (by decide) (by decide)
+
+/-! ## evaluated sanity checks for `C12_torn_tail_only_active` (`#guard`; not used by any proof) -/
+
+private def fill (n : Nat) (b : UInt8) : ByteArray := ⟨Array.replicate n b⟩
+private def build (ds : List ByteArray) : ByteArray := appendAll crcCodec ByteArray.empty ds
+private def exDs : List ByteArray := [fill 100 1, fill 40 2]
+
+-- non-vacuity: two records (107 + 47 bytes), cut at 130 = inside record `j = 1`; the hypotheses hold …
+#guard (build (exDs.take 1)).size + padOf ((build (exDs.take 1)).size % BS) < 130
+#guard 130 < (build (exDs.take 2)).size
+#guard 130 % BS ≠ 0
+#guard allZeroFrom ((build exDs).extract 0 130)
+    (max ((build (exDs.take 1)).size + padOf ((build (exDs.take 1)).size % BS)) (130 / BS * BS)) == false
+-- … the strict reader returns the first record and fails, the tolerant reader returns it and ends cleanly
+#guard (scan crcCodec false 1 ((build exDs).extract 0 130)).ok == false
+#guard (scan crcCodec false 1 ((build exDs).extract 0 130)).recs.length == 1
+#guard (scan crcCodec true 1 ((build exDs).extract 0 130)).ok == true
+#guard (scan crcCodec true 1 ((build exDs).extract 0 130)).recs.length == 1
+-- the excluded cuts read as end of file for the strict reader too (no incomplete chunk is left):
+-- at a record boundary, inside the padding in front of a record, and — KNOWN LIMITATION, the same in
+-- the Go reader (`off >= fileSize`) — at the block boundary between two chunks of one record
+#guard (scan crcCodec false 1 ((build exDs).extract 0 107)).ok == true
+#guard (build [fill 32755 1]).size == 32762
+#guard (scan crcCodec false 1 ((build [fill 32755 1, fill 10 2]).extract 0 32765)).ok == true
+#guard (build [fill 40000 3]).size > BS
+#guard (scan crcCodec false 1 ((build [fill 40000 3]).extract 0 BS)).ok == true
+#guard (scan crcCodec false 1 ((build [fill 40000 3]).extract 0 (BS + 1))).ok == false
+#guard (scan crcCodec false 1 ((build [fill 40000 3]).extract 0 (BS - 1))).ok == false
 
 end XixiKV.C12
